@@ -27,10 +27,10 @@ def norm(lines: list[str], dst_path: str, first_seq: int, bits: int) -> list[str
             for l in lines]
 
 
-def absolute_fs(ops: list[str], outs: list[str], dst_path: str) -> list[str]:
+def absolute_fs(ops: list[str], outs: list[str], dst_path: str, init: dict[str, str] | None = None) -> list[str]:
     """replace the delta-coded filestore column by the current content of `dst_path` in that handler's
     filestore (absent / dir / hex)"""
-    last: dict[str, str] = {}
+    last: dict[str, str] = dict(init or {})
     res = []
     for op, l in zip(ops, outs):
         t = op.split()
@@ -69,12 +69,20 @@ def reuse_case(rng: Rng):
     c.faults_d = g.rand_fault_table(rng, p=0.3)
     header = header_with_parent_dirs(c) + [f"file S {T_SRC} {tdata.hex() or '-'}"]
     n_hist = rng.choice((1, 1, 2))
+    # in some histories the earlier transactions send the very path the follow-up sends, with other
+    # content of the same size; the user rewrites the file before the follow-up
+    same_path = rng.chance(0.4)
+    hdata = bytes((b + 1 + rng.randrange(0, 255)) % 256 for b in tdata) if same_path else b""
     lh = Link(c, header=header, rng=rng,
               plan=rand_plan(rng, rng.randrange(0, 4), 6, 3), pacing=Pacing())
     hist_cfgs = []
     for i in range(n_hist):
         hc = Cfg.from_json(c.to_json())
         hc.put_mode, hc.put_closure = rng.choice("-AU"), rng.choice("-01")
+        if same_path:
+            hc.src_path, hc.dst_path, hc.data = T_SRC, T_DST, hdata
+            hc.dirs_d, hc.dfiles, hc.metadata_only = (), (), False
+            lh.sess.do(f"file S {T_SRC} {hdata.hex() or '-'}")
         lh.cfg = hc
         lk = Link(hc, sess=lh.sess, rng=rng, plan=rand_plan(rng, rng.randrange(0, 4), 6, 3))
         lk.closed, lk.active = lh.closed, lh.active
@@ -100,6 +108,11 @@ def reuse_case(rng: Rng):
                 lk.op(f"reset {h}")
                 lk.drain(h)
     s = lh.sess
+    left_over = None
+    if same_path:
+        s.do(f"file S {T_SRC} {tdata.hex() or '-'}")
+        # the destination file of the history is the follow-up's too: the fresh run starts from it
+        left_over = s.fs_content("D", T_DST)
     # sequence number the follow-up will get = provider state now
     used = sum(1 for op, out in zip(s.ops, s.out) if op.startswith("sm S") and " | ind=tx(" in out)
     first_seq = (c.seqnext + used) % 2 ** c.seqbits
@@ -112,10 +125,13 @@ def reuse_case(rng: Rng):
     # the same follow-up on freshly constructed handlers (same configuration, same clock offset is
     # irrelevant: all timers are relative)
     fresh_header = [l if not l.startswith("P p ") else f"P p {c.seqbits} {first_seq}" for l in header]
+    if left_over is not None:
+        fresh_header = fresh_header + [f"file D {T_DST} {left_over.hex() or '-'}"]
     lf = Link(tc, header=fresh_header, rng=rng)
     fa, fb = run_T(lf)
     fresh_ops = lf.sess.ops[fa:fb]
-    fresh = absolute_fs(lf.sess.ops, lf.sess.out, T_DST)[fa:fb]
+    fresh = absolute_fs(lf.sess.ops, lf.sess.out, T_DST,
+                        None if left_over is None else {"D": left_over.hex() or "-"})[fa:fb]
     fails = o.Fails()
     A = norm(reused, T_DST, first_seq, c.seqbits)
     B = norm(fresh, T_DST, first_seq, c.seqbits)
